@@ -296,6 +296,66 @@ def _dunder_checks(idx: Index, res: Result) -> int:
     return n
 
 
+OVERLOADED_CMP = (ast.Eq, ast.NotEq, ast.Lt, ast.LtE, ast.Gt, ast.GtE)
+
+
+def _test_positions(fn: ast.AST):
+    """Expressions evaluated for their Python truth value inside *fn*."""
+    for n in ast.walk(fn):
+        if isinstance(n, (ast.If, ast.While, ast.IfExp)):
+            yield n.test
+        elif isinstance(n, ast.Assert):
+            yield n.test
+        elif isinstance(n, ast.UnaryOp) and isinstance(n.op, ast.Not):
+            yield n.operand
+        elif isinstance(n, ast.comprehension):
+            for c in n.ifs:
+                yield c
+
+
+def _operand_truth(idx: Index, res: Result) -> int:
+    """TRUTH: Element and Operator overload == != < <= > >= to *build* a comparison operator (an object, always truthy).
+    A public constructor of sddsl/functions.py (and an operator's __init__) that takes such a comparison of one of its operands as a
+    Python condition therefore decides on the object's truthiness, never on a value: the branch taken is the same for every DSL
+    operand and the expression the user wrote is silently replaced."""
+    n_inst = 0
+    cands: List[Tuple[FuncInfo, Set[str]]] = []
+    m = idx.module(FUNCTIONS)
+    for q, fi in m.functions.items():
+        if fi.cls or "." in q:
+            continue
+        operands: Set[str] = set()
+        ps = set(params(fi.node))
+        for r in [x for x in ast.walk(fi.node) if isinstance(x, ast.Return) and isinstance(x.value, ast.Call)]:
+            for a in list(r.value.args) + [k.value for k in r.value.keywords]:
+                operands |= {x.id for x in ast.walk(a) if isinstance(x, ast.Name) and x.id in ps}
+        operands.discard("model")
+        if operands:
+            cands.append((fi, operands))
+    for cname, ci in idx.module(OPS).classes.items():
+        if "__init__" in ci.methods and "Operator" in {c.name for c in idx.mro(ci)}:
+            fi = ci.methods["__init__"][-1]
+            ops = set(params(fi.node)[1:]) - {"model", "sign", "name", "index"}
+            if ops:
+                cands.append((fi, ops))
+    for fi, operands in cands:
+        n_inst += 1
+        bad = None
+        for t in _test_positions(fi.node):
+            for c in ast.walk(t):
+                if isinstance(c, ast.Compare) and any(isinstance(o, OVERLOADED_CMP) for o in c.ops):
+                    sides = [c.left] + list(c.comparators)
+                    hit = [s_ for s_ in sides if isinstance(s_, ast.Name) and s_.id in operands]
+                    if hit:
+                        bad = (c, hit[0].id)
+        res.check("TRUTH", "%s: no overloaded comparison of an operand used as a Python condition" % fi.qual, bad is None,
+                  fi.loc(bad[0]) if bad else fi.loc(), fi.qual, src(bad[0]) if bad else "",
+                  "%s tests `%s` as a Python condition; for an Element or Operator operand the overloaded comparison builds an operator "
+                  "object, which is always truthy, so the same branch is taken whatever the operand is" % (fi.qual, src(bad[0]) if bad else ""),
+                  key="TRUTH/%s/%s" % (fi.qual, bad[1] if bad else ""))
+    return n_inst
+
+
 def check_c02(idx: Index, tier: str, res: Result) -> None:
     res.explanation = ("Hole-safety table over the DSL's generated-text templates: every return path of every term() method in "
                        "the property's vocabulary is extracted by abstract string evaluation; for every operand hole and every "
@@ -307,7 +367,8 @@ def check_c02(idx: Index, tier: str, res: Result) -> None:
                        "comparison dunder of Element and Operator.")
     res.rules = ["R1: nf(parse(T[h:=U])) == nf(graft(parse(T), h, parse(U))) for all (T, h, U)",
                  "OPID: every return path's parsed template equals the class's reference expression (normal form)",
-                 "ORDER: dunder builds (self, other) / reflected (other, self) with the right operator class and sign"]
+                 "ORDER: dunder builds (self, other) / reflected (other, self) with the right operator class and sign",
+                 "TRUTH: no overloaded comparison (== != < <= > >=) of an operand in a Python test position of a public constructor"]
     res.not_decided = ["that eval() of the text computes ordinary arithmetic (trusted: CPython)", "values near discontinuities",
                        "float re-association error of sums/products (a+(b-c) -> a+b-c is accepted: same real value)"]
     res.assumptions = ["CPython's parser", "real-number semantics for + - * /", "operator-precedence locality (induction step)"]
@@ -324,6 +385,8 @@ def check_c02(idx: Index, tier: str, res: Result) -> None:
     res.floor("operator-identity instances", nid, 40)
     nd = _dunder_checks(idx, res)
     res.floor("operator dunders on Element/Operator", nd, 30)
+    nt = _operand_truth(idx, res)
+    res.floor("public constructors / operator initialisers examined for operand truth tests", nt, 60)
     res.extra.update(stats)
     res.extra["r1_triples"] = triples
     res.extra["inner_texts"] = len(inners)
@@ -554,6 +617,17 @@ def _r2(idx: Index, res: Result, renderers: List[Renderer], floor: int = 120) ->
         rr = inner[0]
         epar = rr.args.args[0].arg
         tname = params(hf.node)[2 if hname == "_array_resolve" else 1]
+        # binding time of a leaf: the text refers to the member (model.memoize('v[i]', t)), it never splices the member's current number
+        leaf_br = [g for g in rr.body if isinstance(g, ast.If) and "vector_size() == 0" in src(g.test)]
+        if len(leaf_br) != 1:
+            raise AnalysisError("%s: leaf branch (vector_size() == 0) not found" % hname)
+        for r_ in [x for b in leaf_br[0].body for x in ast.walk(b) if isinstance(x, ast.Return)]:
+            attrs = [a for a in ast.walk(r_.value) if isinstance(a, ast.Attribute) and isinstance(a.value, ast.Name) and a.value.id == epar
+                     and not (isinstance(a.ctx, ast.Load) and a.attr in ("term",))]
+            res.check("R2", "%s: a leaf is emitted as a reference, not as its current value" % hname, not attrs, hf.loc(r_), hf.qual, norm_stmt(r_)[:80],
+                      "%s splices %s into the aggregate's text when the text is built: the aggregate keeps that number when the member is "
+                      "changed later (and for an arrayed stock it takes the net-flow literal instead of the level)"
+                      % (hname, src(attrs[0]) if attrs else ""), key="R2/%s/leaf-value-spliced" % hname)
         for c in ast.walk(rr):
             if isinstance(c, ast.Call) and call_name(c) == "str" and c.args and src(c.args[0]) == epar:
                 guard = [g for g in ast.walk(rr) if isinstance(g, ast.If) and any(x is c for b in g.body for x in ast.walk(b))]
@@ -770,6 +844,9 @@ def check_c01(idx: Index, tier: str, res: Result) -> None:
     _sweep(idx, res)
     from .timegrid import check_normalisation
     check_normalisation(idx, res)       # a wrong precision/offset evaluates equations at the wrong grid time
+    from .memo import invalidate_on_edit
+    # the values reported are those of the model as it is *now*: an edited equation must not be answered from the old memo
+    res.floor("definition-changing members of sddsl", invalidate_on_edit(idx, res, "FRESH"), 5)
     _builtins(idx, res, renderers)
     vocab = set(C02_VOCAB)
     inners = inner_texts(renderers, vocab)
